@@ -299,6 +299,9 @@ func main() {
 	in := flag.String("in", "scen.ndjson", "")
 	out := flag.String("out", "cases.ndjson", "")
 	maxlen := flag.Int("maxlen", 3, "")
+	fm := flag.String("m", "Fatal", "")
+	fmin := flag.Int("min", 0, "")
+	fshape := flag.String("shape", "", "")
 	flag.Parse()
 	rng := rand.New(rand.NewSource(vio.Seed()))
 	switch *mode {
@@ -312,5 +315,13 @@ func main() {
 		nano(*in, *out, rng)
 	case "helpers":
 		helpers(*out)
+	case "values":
+		values(*out, *maxlen, rng)
+	case "misc":
+		misc(*out, rng)
+	case "front":
+		front(*out)
+	case "fatalchild":
+		fatalChild(*fm, *fmin, *fshape)
 	}
 }
